@@ -367,6 +367,15 @@ func c01History(t *testing.T, idx int, seed uint64) {
 					size = limit - 16 - len(topic) // at the packet limit
 				case 1:
 					size = 8192 - 7 - len(topic) - r.Intn(8)
+				case 2:
+					// the delivered packet (re-encoded when a subscription's grant lowers the QoS) has a remaining
+					// length right at an edge of the length encoding; with or without a packet identifier
+					rl := []int{127, 128, 16383, 16384}[r.Intn(4)]
+					if rl+16 > limit {
+						rl -= 16256 // 127 / 128 on the small rings
+					}
+					size = rl - 2 - len(topic) - 2*r.Intn(2)
+					out.Count("c01.seq.length_edge_publishes", 1)
 				}
 				if size < spec.PayloadMin {
 					size = spec.PayloadMin
